@@ -75,6 +75,23 @@ def expandRec (r : Vars) (pol : Policy) : Nat → XRec
   | 0 => fun _ _ => .error .fuel
   | n+1 => expandStep r pol (expandRec r pol n)
 
+/-- `expand_recursive(.., unescape = false)`: like `expandStep` but escaped references stay escaped -/
+def expandStepKeep (r : Vars) (pol : Policy) (rec : XRec) (f : Bytes) (seen : List Bytes) : Except XErr Bytes :=
+  match scan f (f.length + 1) 0 [] false with
+  | .error e => .error e
+  | .ok (reps, _) =>
+    match subst r pol rec f seen reps 0 [] with
+    | .error e => .error e
+    | .ok (res, cursor) => .ok (if cursor < f.length then res ++ f.drop cursor else res)
+
+def expandRecKeep (r : Vars) (pol : Policy) : Nat → XRec
+  | 0 => fun _ _ => .error .fuel
+  | n+1 => expandStepKeep r pol (expandRecKeep r pol n)
+
+/-- `expand_keep_escapes`: the early pass over the yaml files (its result is expanded again later) -/
+def expandKeep (r : Vars) (pol : Policy) (f : Bytes) : Except XErr Bytes :=
+  expandRecKeep r pol (r.length + 2) f []
+
 /-- number of distinct keys bounds the recursion depth (a repeated key on a path is a `Cycle`) -/
 def expand (r : Vars) (pol : Policy) (f : Bytes) : Except XErr Bytes :=
   expandRec r pol (r.length + 2) f []
